@@ -59,6 +59,13 @@ pub fn file_values(tier: Tier) -> Vec<(String, String)> {
             inputs.push(("tokens".into(), json_string(&s, false)));
         }
     }
+    // ---- (2c) one string per character class edge (controls C0 / DEL / C1, separators, marks, astral), alone, doubled and
+    // inside text: whoever writes or cuts these strings counts bytes or characters
+    for c in ['\u{0}', '\u{1}', '\u{8}', '\u{1f}', '\u{7f}', '\u{80}', '\u{85}', '\u{9f}', '\u{a0}', '\u{ad}', '\u{300}', '\u{7ff}', '\u{800}', '\u{2028}', '\u{2029}', '\u{d7ff}', '\u{e000}', '\u{feff}', '\u{fffd}', '\u{ffff}', '\u{10000}', '\u{1f600}', '\u{10ffff}'] {
+        for t in [format!("{c}"), format!("{c}{c}"), format!("a{c}b"), format!("{c}\""), format!("\\{c}"), format!("é{c}")] {
+            inputs.push(("chars".into(), json_string(&t, false)));
+        }
+    }
     // ---- (3) range specifications ---------------------------------------------------------------------
     let spec_toks = ["0", "1", "-", "..", "..=", "|", "_", "NaN", "inf", "1e999", "128", "-129", " "];
     for ty in ["i8", "u8", "f32", "u64"] {
